@@ -41,6 +41,34 @@ fn gen_source(rng: &mut Rng, shared: &[(bool, bool)], tagbase: usize, disagree: 
             if shared[i].1 != (disagree && rng.chance(1, 4)) {
                 implies.push(gen::sp(SAFE_TO_RUN.to_owned()));
             }
+            // differently *written* lists over the same names: reordered, with a repeated
+            // entry in place of another one, with an extra repeat, or shortened
+            if disagree && !implies.is_empty() && rng.chance(1, 3) {
+                match rng.below(5) {
+                    0 => implies.reverse(),
+                    1 => {
+                        let k = rng.below(implies.len());
+                        let x = implies[k].clone();
+                        for e in implies.iter_mut() {
+                            *e = x.clone();
+                        }
+                    }
+                    2 => {
+                        let k = rng.below(implies.len());
+                        let x = implies[k].clone();
+                        implies.push(x);
+                    }
+                    3 => {
+                        let k = rng.below(implies.len());
+                        let x = implies[k].clone();
+                        implies.insert(0, x);
+                        implies.pop();
+                    }
+                    _ => {
+                        implies.pop();
+                    }
+                }
+            }
             f.criteria.insert(
                 c.to_string(),
                 CriteriaEntry {
